@@ -1,30 +1,16 @@
-use std::{future::Future, os::fd::{FromRawFd, OwnedFd}, pin::Pin, sync::Arc, task::{Context, Wake, Waker}, time::Duration};
-use compio_buf::BufResult;
-use compio_driver::{DriverType, ProactorBuilder, op::Recv, verif};
-use compio_runtime::{CancelToken, FutureExt};
-struct W; impl Wake for W { fn wake(self: Arc<Self>) {} }
+use std::time::Instant;
+use compio_driver::{DriverType, ProactorBuilder};
 fn main() {
-    for dt in [DriverType::Poll, DriverType::IoUring] {
-        let mut pb = ProactorBuilder::new(); pb.driver_type(dt); pb.capacity(2);
+    let n = 1000;
+    let t0 = Instant::now();
+    let mut tb = std::time::Duration::ZERO;
+    for _ in 0..n {
+        let t1 = Instant::now();
+        let mut pb = ProactorBuilder::new(); pb.driver_type(DriverType::IoUring); pb.capacity(8);
         let rt = compio_runtime::RuntimeBuilder::new().with_proactor(pb).build().unwrap();
-        let mut fds = [0i32; 2];
-        unsafe { libc::socketpair(libc::AF_UNIX, libc::SOCK_STREAM | libc::SOCK_NONBLOCK, 0, fds.as_mut_ptr()) };
-        let a = unsafe { OwnedFd::from_raw_fd(fds[0]) }; let _b = unsafe { OwnedFd::from_raw_fd(fds[1]) };
-        let token = rt.enter(CancelToken::new);
-        let t2 = token.clone();
-        let mut fut: Pin<Box<dyn Future<Output = BufResult<usize, Recv<Vec<u8>, OwnedFd>>>>> =
-            rt.enter(|| { let s = rt.submit(Recv::new(a, Vec::with_capacity(4), compio_driver::op::RecvFlags::empty())); let f = async move { s.await }; Box::pin(async move { f.with_cancel(t2).await }) });
-        let waker = Waker::from(Arc::new(W)); let mut cx = Context::from_waker(&waker);
-        let r = rt.enter(|| fut.as_mut().poll(&mut cx));
-        println!("{dt:?} submit pending={} log={:?}", r.is_pending(), verif::take());
-        rt.enter(|| token.clone().cancel());
-        println!(" cancelled={} log={:?}", token.is_cancelled(), verif::take());
-        for _ in 0..3 { rt.enter(|| { rt.poll_with(Some(Duration::ZERO)); rt.run(); }); }
-        println!(" harvest log={:?}", verif::take());
-        let r = rt.enter(|| fut.as_mut().poll(&mut cx));
-        println!(" poll pending={} log={:?}", r.is_pending(), verif::take());
-        drop(rt); println!(" drop rt log={:?}", verif::take());
-        drop(fut); println!(" drop fut log={:?}", verif::take());
-        drop(token); println!(" drop token log={:?}", verif::take());
+        tb += t1.elapsed();
+        drop(rt);
     }
+    let el = t0.elapsed();
+    println!("n={n}: {:?} per create+drop, build part {:?}", el / n as u32, tb / n as u32);
 }
